@@ -13,9 +13,11 @@ import (
 
 	"github.com/skx/evalfilter/v2"
 	"github.com/skx/evalfilter/v2/object"
+	"github.com/skx/evalfilter/v2/vm"
 )
 
 type RunStep struct {
+	Act string          `json:"act"` // "exec" (default) | "run": call Run and observe its verdict
 	Obj json.RawMessage `json:"obj"` // [[field, value]...] (map object); absent = nil object
 	Exp *Expect         `json:"exp"`
 }
@@ -37,7 +39,11 @@ type Row struct {
 	Fns  json.RawMessage `json:"fns"` // [[name, kind]...]
 	Exp  json.RawMessage `json:"exp"` // single run: expected result only
 	Runs []RunStep       `json:"runs"`
-	Raw  json.RawMessage `json:"-"`
+	// ErrVars: the variables a failed run leaves are prescribed too (checked, and later runs still constrained)
+	ErrVars bool `json:"errvars"`
+	// Repeat: every run has the same inputs; even where the outcome is unconstrained it must be the same each time
+	Repeat bool            `json:"repeat"`
+	Raw    json.RawMessage `json:"-"`
 }
 
 type Call struct {
@@ -116,6 +122,19 @@ func newMachine(src string, vars [][2]interface{}, fns []FnSpec, optimize bool, 
 			case "val":
 				o, _ := f.Ret.Object()
 				return o
+			case "single":
+				// the engine's own shared objects
+				switch f.Ret.Tag {
+				case "B":
+					if f.Ret.B {
+						return vm.True
+					}
+					return vm.False
+				case "N":
+					return vm.Null
+				}
+				o, _ := f.Ret.Object()
+				return o
 			}
 			return &object.Void{}
 		})
@@ -134,6 +153,27 @@ func newMachine(src string, vars [][2]interface{}, fns []FnSpec, optimize bool, 
 		}
 	}()
 	return m, err
+}
+
+// execAct performs one API action: "run" calls Run and reports its verdict as a boolean
+func (m *Machine) execAct(act string, obj interface{}) (out Outcome) {
+	if act != "run" {
+		return m.exec(obj)
+	}
+	m.calls = nil
+	defer func() {
+		if r := recover(); r != nil {
+			out.Panic = r
+		}
+		out.Calls = m.calls
+		out.Scopes = m.E.VerifEnvironment().VerifScopeDepth()
+	}()
+	b, err := m.E.Run(obj)
+	out.Err = err
+	if err == nil {
+		out.Out = &object.Boolean{Value: b}
+	}
+	return
 }
 
 func (m *Machine) exec(obj interface{}) (out Outcome) {
